@@ -328,6 +328,95 @@ def finalState (r : RunResult τ (SpSt τ)) : Option (KState τ (SpSt τ)) :=
   | .returned _ s => some s
   | _ => none
 
+/-! ## the property restated as an oracle over the `put` / `serve` / `out` history
+
+The oracle keeps, per flow, the packets handed to `put` and not yet taken by `run` (with the instant of the `put`), the
+packet in transmission (with the instant its service started) and the instant of the last departure.  It accepts
+
+* `serve id t` only if nothing is in transmission, `id` is the *oldest* waiting packet of its flow, its flow has a positive
+  priority `π` and **no packet that was put in an earlier instant and still waits belongs to a flow with a priority above
+  `π`** (a packet put later in the same instant is not waiting at the start: the decision burst precedes this observation
+  within the instant), and the service starts **either at the instant of the last departure or at the instant at which every
+  waiting packet was put** (never idle with a backlog);
+* `out id t` only if `id` is the packet in transmission and `t` is exactly its service start plus `8·size/rate`. -/
+
+/-- `a = b` on times, through `<` -/
+def eqT (a b : τ) : Prop := ¬ a < b ∧ ¬ b < a
+
+instance (a b : τ) : Decidable (eqT a b) := by unfold eqT; infer_instance
+
+structure OSt (τ : Type) where
+  /-- per flow: the packets handed to `put` and not yet taken by `run`, with the instant of the `put`, oldest first -/
+  waiting : Nat → List (Int × τ)
+  /-- the packet in transmission with the instant its service started -/
+  busy : Option (Int × τ)
+  /-- the instant of the last departure -/
+  lastOut : Option τ
+
+/-- nothing has happened yet -/
+def oInit : OSt τ := { waiting := fun _ => [], busy := none, lastOut := none }
+
+/-- `w[f] := l` -/
+def setQ (w : Nat → List (Int × τ)) (f : Nat) (l : List (Int × τ)) : Nat → List (Int × τ) := fun x => if x = f then l else w x
+
+/-- flow `f'` has a priority strictly above `π` -/
+def higher (prios : List (Nat × Int)) (π : Int) (f' : Nat) : Prop := ∃ e ∈ prios, e.1 = f' ∧ π < e.2
+
+instance (prios : List (Nat × Int)) (π : Int) (f' : Nat) : Decidable (higher prios π f') := by unfold higher; infer_instance
+
+/-- the last departure was at `t` -/
+def lastIs : Option τ → τ → Prop
+  | some d, t => eqT d t
+  | none, _ => False
+
+instance (o : Option τ) (t : τ) : Decidable (lastIs o t) := by
+  cases o <;> unfold lastIs <;> infer_instance
+
+/-- what the property demands when `run` starts the service of packet `id` at instant `t` -/
+def ServeOK (F : Nat) (flow : Int → Nat) (prios : List (Nat × Int)) (o : OSt τ) (id : Int) (t : τ) : Prop :=
+  o.busy.isNone = true ∧                                                  -- one at a time
+  (o.waiting (flow id)).head?.map (·.1) = some id ∧                       -- the oldest waiting packet of its flow
+  (∃ e ∈ prios, e.1 = flow id ∧ 0 < e.2 ∧                                 -- strict priority
+    ∀ f' ∈ List.range F, higher prios e.2 f' → ∀ x ∈ o.waiting f', ¬ x.2 < t) ∧
+  (lastIs o.lastOut t ∨ ∀ f ∈ List.range F, ∀ x ∈ o.waiting f, eqT x.2 t)  -- never idle with a backlog
+
+instance (F : Nat) (flow : Int → Nat) (prios : List (Nat × Int)) (o : OSt τ) (id : Int) (t : τ) :
+    Decidable (ServeOK F flow prios o id t) := by unfold ServeOK; infer_instance
+
+/-- what the property demands when packet `id` is handed to `out.put` at instant `t` -/
+def OutOK (size : Int → Nat) (rate : τ) (o : OSt τ) (id : Int) (t : τ) : Prop :=
+  match o.busy with
+  | some (id', s) => id' = id ∧ eqT t (s + txTime size rate id)
+  | none => False
+
+instance (size : Int → Nat) (rate : τ) (o : OSt τ) (id : Int) (t : τ) : Decidable (OutOK size rate o id t) := by
+  unfold OutOK
+  cases o.busy with
+  | none => infer_instance
+  | some x => cases x; infer_instance
+
+/-- one observation -/
+def ostep (F : Nat) (flow size : Int → Nat) (cfg : SP.Cfg τ) (o : OSt τ) : HEv τ → Option (OSt τ)
+  | .put id t => some { o with waiting := setQ o.waiting (flow id) (o.waiting (flow id) ++ [(id, t)]) }
+  | .serve id t =>
+    if ServeOK F flow cfg.prios o id t then
+      some { o with waiting := setQ o.waiting (flow id) (o.waiting (flow id)).tail, busy := some (id, t) }
+    else none
+  | .out id t => if OutOK size cfg.rate o id t then some { o with busy := none, lastOut := some t } else none
+
+/-- a history -/
+def orun (F : Nat) (flow size : Int → Nat) (cfg : SP.Cfg τ) : OSt τ → List (HEv τ) → Option (OSt τ)
+  | o, [] => some o
+  | o, ev :: r => (ostep F flow size cfg o ev).bind fun o' => orun F flow size cfg o' r
+
+/-- everything has been served: nothing waits, nothing is in transmission -/
+def drained (F : Nat) (o : OSt τ) : Bool := o.busy.isNone && (List.range F).all fun f => (o.waiting f).isEmpty
+
+/-- the arrival instants of a workload: packet `k` arrives at the sum of the first `k + 1` gaps -/
+def arrivalsFrom (t : τ) : List (τ × Int) → List (Int × τ)
+  | [] => []
+  | (gap, id) :: r => (id, t + gap) :: arrivalsFrom (t + gap) r
+
 /-! ## label inference and an executable refinement check (used by the `example`s of `Props/C13K.lean`)
 
 `Props/C13K.lean` proves that every kernel step is an action sequence the LTS accepts between the abstractions of the two
